@@ -2,10 +2,11 @@
 From PatchV Require Import Base Lines Hunk Locator Options Applier Spec_Locate Spec_Apply Proofs_Conf.
 
 (* any option record without -R, -D, --verbose; any -F >= 0, with or without -l, -N, -t, -f, any newline
-   mode and reject format; files of fewer than 2^63-1 lines; the known finding K20 excluded (see below) *)
+   mode and reject format; files of fewer than 2^63-1 lines; a patch whose old file is /dev/null (one that
+   creates the file) only against an absent or empty file *)
 Theorem apply_conforming : forall o p A B,
   define_macro o = [] -> verbose o = false -> reverse_patch_opt o = false -> (0 <= max_fuzz o)%Z ->
-  Conforming A B (hunks p) -> (Z.of_nat (length A) < MAXZ)%Z -> no_top_insertion A (hunks p) ->
+  Conforming A B (hunks p) -> (Z.of_nat (length A) < MAXZ)%Z -> creation_guard p A ->
   exists r, apply_patch o A p = Ok r /\ r_out r = B /\ r_failed r = 0 /\ r_rej r = [] /\
             r_skipped r = false /\ r_perfect r = true /\ r_msgs r = [].
 Proof. exact Proofs_Conf.apply_conforming. Qed.
@@ -18,28 +19,22 @@ Theorem stated_place_wins : forall ws F cursor f pre post h,
   body h <> [] ->
   rcount (oldr h) = Z.of_nat (length (old_side (body h))) ->
   rstart (oldr h) = (if Z.eqb (rcount (oldr h)) 0 then Z.of_nat (length pre) else Z.of_nat (length pre) + 1)%Z ->
-  cursor <= length pre -> (0 <= F)%Z -> (Z.of_nat (length f) < MAXZ)%Z -> ~ top_insertion f h ->
+  cursor <= length pre -> (0 <= F)%Z -> (Z.of_nat (length f) < MAXZ)%Z ->
   locate_hunk f h ws 0 F cursor = Some (mkLoc (length pre) 0 0).
 Proof. exact Proofs_Conf.locate_conf. Qed.
 Print Assumptions stated_place_wins.
 
 Local Open Scope string_scope.
-(* The full statement (without the K20 guard) is FALSE of the code as it is: known finding K20.
-   diff -U0 of "x" -> "n","x" is  @@ -0,0 +1 @@ / +n ; it is conforming, and it is rejected. *)
-Theorem apply_conforming_without_K20_guard_refuted :
-  exists A B p, Conforming A B (hunks p) /\ ~ no_top_insertion A (hunks p) /\
-    match apply_patch default_options A p with Ok r => r_failed r = 1 /\ r_out r = A | Throw _ => False end.
-Proof.
-  pose (l := fun s => mkLine (bs s) LF).
-  pose (h := mkHunk (mkRange 0 0) (mkRange 1 1) [mkPL Add (l "n")]).
-  exists [l "x"], [l "n"; l "x"], (mkPatch FUnified OpChange [] [] (bs "f") (bs "f") [] [] 0 0 [h]).
-  split; [|split].
-  - unfold Conforming. cbn [hunks].
-    apply (Conf_cons 0 0 [] h [] [l "x"] [l "x"]); try reflexivity; [discriminate|constructor].
-  - intros H. apply (H h); [left; reflexivity|]. repeat split; discriminate.
-  - vm_compute. split; reflexivity.
-Qed.
-Print Assumptions apply_conforming_without_K20_guard_refuted.
+(* formerly refuted (known finding K20, fixed in /repo): a context-free insertion at the top of a non-empty file,
+   as diff -U0 writes it, is conforming and is now applied *)
+Example top_insertion_applies :
+  let l s := mkLine (bs s) LF in
+  let h := mkHunk (mkRange 0 0) (mkRange 1 1) [mkPL Add (l "n")] in
+  match apply_patch default_options [l "x"] (mkPatch FUnified OpChange [] [] (bs "f") (bs "f") [] [] 0 0 [h]) with
+  | Ok r => r_failed r = 0 /\ r_out r = [l "n"; l "x"]
+  | Throw _ => False
+  end.
+Proof. vm_compute. split; reflexivity. Qed.
 
 (* non-vacuity of apply_conforming: a two-hunk conforming patch over a file with repeated lines *)
 Definition ex_l (s : String.string) := mkLine (bs s) LF.
@@ -49,11 +44,12 @@ Definition ex_h2 := mkHunk (mkRange 5 1) (mkRange 5 2) [mkPL Ctx (ex_l "a"); mkP
 Example conforming_nonvacuous :
   Conforming [ex_l "a"; ex_l "b"; ex_l "a"; ex_l "b"; ex_l "a"]
              [ex_l "a"; ex_l "B"; ex_l "a"; ex_l "b"; ex_l "a"; ex_l "z"] [ex_h1; ex_h2] /\
-  no_top_insertion [ex_l "a"; ex_l "b"; ex_l "a"; ex_l "b"; ex_l "a"] [ex_h1; ex_h2].
+  creation_guard (mkPatch FUnified OpChange [] [] (bs "f") (bs "f") [] [] 0 0 [ex_h1; ex_h2])
+                 [ex_l "a"; ex_l "b"; ex_l "a"; ex_l "b"; ex_l "a"].
 Proof.
   split.
   - unfold Conforming.
     apply (Conf_cons 0 0 [] ex_h1 [ex_h2] [ex_l "b"; ex_l "a"] [ex_l "b"; ex_l "a"; ex_l "z"]); try reflexivity; [discriminate|].
     apply (Conf_cons 3 3 [ex_l "b"] ex_h2 [] [] []); try reflexivity; [discriminate|]. constructor.
-  - intros h [<-|[<-|[]]] (H1 & _); discriminate.
+  - intros H. vm_compute in H. discriminate.
 Qed.
